@@ -98,11 +98,13 @@ impl SharedState {
 /// every message they are about to handle; a test-installed closure may run at that point.
 #[cfg(azure_guestproxyagent_verif)]
 pub mod verif_actor {
+    use std::sync::atomic::{AtomicU64, Ordering};
     use std::sync::Mutex;
 
     type Hook = Box<dyn FnMut(&'static str, &'static str) + Send>;
     static TRACE: Mutex<Vec<(&'static str, &'static str)>> = Mutex::new(Vec::new());
     static HOOK: Mutex<Option<Hook>> = Mutex::new(None);
+    static GENERATION: AtomicU64 = AtomicU64::new(0);
 
     // (a closure may panic on purpose, to end the actor it runs in: the mutexes are then poisoned, which is ignored)
     pub fn on_message(actor: &'static str, kind: &'static str) {
@@ -110,12 +112,23 @@ pub mod verif_actor {
             .lock()
             .unwrap_or_else(|e| e.into_inner())
             .push((actor, kind));
-        if let Some(h) = HOOK.lock().unwrap_or_else(|e| e.into_inner()).as_mut() {
+        // the closure runs outside the lock: it may hold its actor for a while, the other actors go on meanwhile (without a hook);
+        // it is put back afterwards unless the hook was replaced or cleared in the meantime
+        let (taken, generation) = {
+            let mut slot = HOOK.lock().unwrap_or_else(|e| e.into_inner());
+            (slot.take(), GENERATION.load(Ordering::SeqCst))
+        };
+        if let Some(mut h) = taken {
             h(actor, kind);
+            let mut slot = HOOK.lock().unwrap_or_else(|e| e.into_inner());
+            if slot.is_none() && GENERATION.load(Ordering::SeqCst) == generation {
+                *slot = Some(h);
+            }
         }
     }
 
     pub fn set_hook(hook: Option<Hook>) {
+        GENERATION.fetch_add(1, Ordering::SeqCst);
         *HOOK.lock().unwrap_or_else(|e| e.into_inner()) = hook;
     }
 
